@@ -366,10 +366,10 @@ pub open spec fn ws_numbered(ws: Seq<WordShape>) -> bool { forall|k: int| 0 <= k
 pub open spec fn ws_stems(ws: Seq<WordShape>) -> bool { forall|k: int| 0 <= k < ws.len() ==> 1 <= (#[trigger] ws[k]).stem <= ws[k].slice.1 - ws[k].slice.0 }
 pub open spec fn same_slices(a: Seq<WordShape>, b: Seq<WordShape>) -> bool { a.len() == b.len() && forall|k: int| 0 <= k < a.len() ==> (#[trigger] a[k]).slice == b[k].slice && a[k].fin == b[k].fin }
 // ---- C15 (characters): no separator inside a word, edges alphanumeric, every alphanumeric character covered, fin flags
-pub open spec fn split_pat() -> Seq<CharClass> { seq![Whitespace, Control, Punctuation] }
-pub open spec fn strip_pat() -> Seq<CharClass> { seq![NotAlphaNum] }
+pub open spec fn is_split_pat(p: Seq<CharClass>) -> bool { p.len() == 3 && p[0] == Whitespace && p[1] == Control && p[2] == Punctuation }
+pub open spec fn is_strip_pat(p: Seq<CharClass>) -> bool { p.len() == 1 && p[0] == NotAlphaNum }
 proof fn lemma_pm_split(pattern: &[CharClass], lang: &Lang, c: char)
-    requires pattern@ == split_pat()
+    requires is_split_pat(pattern@)
     ensures pm(pattern, lang, c) == is_sep(c)
 {
     let ps = pattern@;
@@ -379,7 +379,7 @@ proof fn lemma_pm_split(pattern: &[CharClass], lang: &Lang, c: char)
     }
 }
 proof fn lemma_pm_strip(pattern: &[CharClass], lang: &Lang, c: char)
-    requires pattern@ == strip_pat()
+    requires is_strip_pat(pattern@)
     ensures pm(pattern, lang, c) == !sp_alnum(c)
 {
     let ps = pattern@;
@@ -414,6 +414,42 @@ proof fn lemma_same_class(ws: Seq<WordShape>, a: Seq<char>, b: Seq<char>)
     if ws_no_sep(ws, b) { assert forall|k: int, t: int| 0 <= k < ws.len() && (#[trigger] ws[k]).slice.0 <= t < ws[k].slice.1 implies !is_sep(#[trigger] a[t]) by { assert(!is_sep(b[t])); } }
     if ws_edges(ws, b) { assert forall|k: int| 0 <= k < ws.len() implies sp_alnum(a[(#[trigger] ws[k]).slice.0 as int]) && sp_alnum(a[ws[k].slice.1 - 1]) by { assert(sp_alnum(b[ws[k].slice.0 as int])); } }
     if ws_cover(ws, b) { assert forall|t: int| 0 <= t < a.len() && sp_alnum(#[trigger] a[t]) implies covered(ws, t) by { assert(sp_alnum(b[t])); } }
+}
+pub open spec fn strip_rel(w0: Seq<WordShape>, st: Seq<WordShape>, f: Seq<WordShape>, keep: spec_fn(WordShape) -> bool, n: int) -> bool {
+    &&& st.len() == w0.len() && ws_in(w0, n) && ws_in(st, n) && ws_ordered(st) && f == st.filter(keep)
+    &&& (forall|i: int| 0 <= i < st.len() ==> keep(#[trigger] st[i]) == (st[i].slice.0 < st[i].slice.1))
+    &&& (forall|k: int| 0 <= k < w0.len() ==> w0[k].slice.0 <= (#[trigger] st[k]).slice.0 && st[k].slice.1 <= w0[k].slice.1)
+    &&& (forall|k: int| 0 <= k < w0.len() ==> (#[trigger] st[k]).fin == (w0[k].fin || st[k].slice.1 < w0[k].slice.1))
+}
+proof fn lemma_strip_fin(w0: Seq<WordShape>, st: Seq<WordShape>, f: Seq<WordShape>, keep: spec_fn(WordShape) -> bool, n: int)
+    requires strip_rel(w0, st, f, keep, n)
+    ensures ws_fin_record(w0) ==> ws_fin_record(f), ws_fin_query(w0, n) ==> ws_fin_query(f, n),
+{
+    lemma_filter_words(st, keep, n);
+    if ws_fin_record(w0) { assert forall|j: int| 0 <= j < f.len() implies (#[trigger] f[j]).fin by { assert(st.contains(f[j])); let k = choose|k: int| 0 <= k < st.len() && st[k] == f[j]; assert(w0[k].fin); } }
+    if ws_fin_query(w0, n) { assert forall|j: int| 0 <= j < f.len() implies ((#[trigger] f[j]).fin <==> f[j].slice.1 < n) by { assert(st.contains(f[j])); let k = choose|k: int| 0 <= k < st.len() && st[k] == f[j]; assert(w0[k].fin <==> w0[k].slice.1 < n); } }
+}
+proof fn lemma_strip_chars(w0: Seq<WordShape>, st: Seq<WordShape>, f: Seq<WordShape>, keep: spec_fn(WordShape) -> bool, chars: Seq<char>, n: int)
+    requires strip_rel(w0, st, f, keep, n), n == chars.len(), ws_no_sep(w0, chars), gap_sep(w0, chars),
+        forall|k: int, t: int| 0 <= k < w0.len() && w0[k].slice.0 <= t < w0[k].slice.1 && !((#[trigger] st[k]).slice.0 <= t < st[k].slice.1) ==> !sp_alnum(#[trigger] chars[t]),
+        forall|k: int| 0 <= k < st.len() && (#[trigger] st[k]).slice.0 < st[k].slice.1 ==> sp_alnum(chars[st[k].slice.0 as int]) && sp_alnum(chars[st[k].slice.1 - 1]),
+    ensures ws_no_sep(f, chars), ws_edges(f, chars), ws_cover(f, chars),
+{
+    broadcast use chx::ax_sep_not_alnum;
+    lemma_filter_words(st, keep, n);
+    assert forall|j: int, t: int| 0 <= j < f.len() && (#[trigger] f[j]).slice.0 <= t < f[j].slice.1 implies !is_sep(#[trigger] chars[t]) by {
+        assert(st.contains(f[j])); let k = choose|k: int| 0 <= k < st.len() && st[k] == f[j]; assert(w0[k].slice.0 <= t < w0[k].slice.1);
+    }
+    assert forall|j: int| 0 <= j < f.len() implies sp_alnum(chars[(#[trigger] f[j]).slice.0 as int]) && sp_alnum(chars[f[j].slice.1 - 1]) by {
+        assert(st.contains(f[j])); let k = choose|k: int| 0 <= k < st.len() && st[k] == f[j]; assert(keep(f[j]));
+    }
+    assert forall|t: int| 0 <= t < chars.len() && sp_alnum(#[trigger] chars[t]) implies covered(f, t) by {
+        if !covered(w0, t) { assert(is_sep(chars[t])); }
+        let k = choose|k: int| 0 <= k < w0.len() && (#[trigger] w0[k]).slice.0 <= t < w0[k].slice.1;
+        assert(st[k].slice.0 <= t < st[k].slice.1);
+        assert(keep(st[k])); assert(f.contains(st[k]));
+        let j = choose|j: int| 0 <= j < f.len() && f[j] == st[k];
+    }
 }
 impl TextOwn {
     pub open spec fn chars_ok(&self) -> bool { ws_no_sep(self.words@, self.chars@) && ws_edges(self.words@, self.chars@) && ws_cover(self.words@, self.chars@) }
@@ -485,6 +521,7 @@ impl TextOwn {
         ensures ret.source@ == self.source@, ret.chars@ == self.chars@, ret.classes@ == self.classes@, ret.words@.len() == self.words@.len() && (forall|k: int| 0 <= k < self.words@.len() ==> (#[trigger] ret.words@[k]).slice == self.words@[k].slice),
             forall|k: int| 0 <= k < self.words@.len() ==> (#[trigger] ret.words@[k]).offset == self.words@[k].offset,
             self.words@.len() > 0 ==> ret.words@.last().fin == fin,
+            forall|k: int| 0 <= k < self.words@.len() - 1 ==> (#[trigger] ret.words@[k]).fin == self.words@[k].fin,
     {
         let mut __self = self;
         if let Some(word) = __self.words.last_mut() {
@@ -524,7 +561,7 @@ impl TextOwn {
             forall|k: int| 0 <= k < self.words@.len() ==> (#[trigger] self.words@[k]).offset + (self.words@[k].slice.1 - self.words@[k].slice.0) <= usize::MAX,
         ensures ret.struct_ok(), ret.source@ == self.source@, ret.chars@ == self.chars@, ret.classes@ == self.classes@,
             // the pipeline case: one word spanning the whole text, split on whitespace / control / punctuation
-            self.words@.len() == 1 && self.words@[0].slice.0 == 0 && self.words@[0].slice.1 == self.chars@.len() && pattern@ == split_pat() ==> {
+            self.words@.len() == 1 && self.words@[0].slice.0 == 0 && self.words@[0].slice.1 == self.chars@.len() && is_split_pat(pattern@) ==> {
                 &&& ws_no_sep(ret.words@, ret.chars@) && gap_sep(ret.words@, ret.chars@)
                 &&& (self.words@[0].fin ==> ws_fin_record(ret.words@)) && (!self.words@[0].fin ==> ws_fin_query(ret.words@, ret.chars@.len() as int))
             },
@@ -534,7 +571,7 @@ impl TextOwn {
         let ghost parents = __self.words@;
         let ghost n = __self.chars@.len() as int;
         let ghost chars0 = __self.chars@;
-        let ghost pipeline = parents.len() == 1 && parents[0].slice.0 == 0 && parents[0].slice.1 == n && pattern@ == split_pat();
+        let ghost pipeline = parents.len() == 1 && parents[0].slice.0 == 0 && parents[0].slice.1 == n && is_split_pat(pattern@);
         let __end0 = __self.words.len();
         for __i0 in 0..__end0
             invariant __end0 == parents.len(), __self.words@ == parents, __self.chars@.len() == n, ws_in(parents, n), ws_ordered(parents),
@@ -543,7 +580,7 @@ impl TextOwn {
                 ws_in(words@, n), ws_ordered(words@), ws_nonempty(words@),
                 forall|j: int| 0 <= j < words@.len() ==> (#[trigger] words@[j]).slice.1 <= (if __i0 < parents.len() { parents[__i0 as int].slice.0 as int } else { n }),
                 pipeline ==> (__i0 == 0 ==> words@.len() == 0) && (__i0 == 1 ==> ws_no_sep(words@, chars0) && gap_sep(words@, chars0) && (forall|j: int| 0 <= j < words@.len() ==> (#[trigger] words@[j]).fin == (parents[0].fin || words@[j].slice.1 < n))),
-                chars0 == __self.chars@, pipeline == (parents.len() == 1 && parents[0].slice.0 == 0 && parents[0].slice.1 == n && pattern@ == split_pat()),
+                chars0 == __self.chars@, pipeline == (parents.len() == 1 && parents[0].slice.0 == 0 && parents[0].slice.1 == n && is_split_pat(pattern@)),
         {
             let word = &__self.words[__i0];
             let mut __it1 = WordSplit::new(word, &__self.chars, pattern, lang);
@@ -552,7 +589,7 @@ impl TextOwn {
                     ws_in(words@, n), ws_ordered(words@), ws_nonempty(words@),
                     forall|j: int| 0 <= j < words@.len() ==> (#[trigger] words@[j]).slice.1 <= word.slice.0 + __it1.char_offset,
                     word.slice.0 + __it1.char_offset <= word.slice.1,
-                    chars0 == __self.chars@, __it1.pattern@ == pattern@, __it1.lang == lang, pipeline == (parents.len() == 1 && parents[0].slice.0 == 0 && parents[0].slice.1 == n && pattern@ == split_pat()),
+                    chars0 == __self.chars@, __it1.pattern@ == pattern@, __it1.lang == lang, pipeline == (parents.len() == 1 && parents[0].slice.0 == 0 && parents[0].slice.1 == n && is_split_pat(pattern@)),
                     pipeline ==> ws_no_sep(words@, chars0) && (forall|t: int| 0 <= t < __it1.char_offset && !covered(words@, t) ==> is_sep(#[trigger] chars0[t]))
                         && (forall|j: int| 0 <= j < words@.len() ==> (#[trigger] words@[j]).fin == (parents[0].fin || words@[j].slice.1 < n)),
                 ensures pipeline ==> ws_no_sep(words@, chars0) && gap_sep(words@, chars0) && (forall|j: int| 0 <= j < words@.len() ==> (#[trigger] words@[j]).fin == (parents[0].fin || words@[j].slice.1 < n)),
@@ -607,16 +644,39 @@ impl TextOwn {
     pub fn strip(self, pattern: &[CharClass], lang: &Lang) -> (ret: Self)
         requires self.struct_ok(),
         ensures ret.struct_ok(), ret.source@ == self.source@, ret.chars@ == self.chars@, ret.classes@ == self.classes@,
+            // the pipeline case: words without separators, gaps made of separators, edges stripped of non-alphanumerics
+            ws_no_sep(self.words@, self.chars@) && gap_sep(self.words@, self.chars@) && is_strip_pat(pattern@) ==> ret.chars_ok(),
+            ws_fin_record(self.words@) ==> ws_fin_record(ret.words@),
+            ws_fin_query(self.words@, self.chars@.len() as int) ==> ws_fin_query(ret.words@, ret.chars@.len() as int),
     {
         let ghost n = self.chars@.len() as int;
+        let ghost chars0 = self.chars@;
+        let ghost w0 = self.words@;
+        let ghost pipeline = ws_no_sep(w0, chars0) && gap_sep(w0, chars0) && is_strip_pat(pattern@);
+        broadcast use chx::ax_sep_not_alnum;
         let mut __self = self;
         let __end0 = __self.words.len();
         for __i0 in 0..__end0
             invariant __end0 == __self.words@.len(), __self.source@ == self.source@, __self.chars@ == self.chars@, __self.classes@ == self.classes@, n == self.chars@.len(),
-                ws_in(__self.words@, n), ws_ordered(__self.words@),
+                ws_in(__self.words@, n), ws_ordered(__self.words@), __self.words@.len() == w0.len(), chars0 == self.chars@, w0 == self.words@,
+                pipeline == (ws_no_sep(w0, chars0) && gap_sep(w0, chars0) && is_strip_pat(pattern@)),
+                // processed words: shrunk inside themselves, what was cut off is non-alphanumeric, what remains has alphanumeric edges
+                forall|k: int| 0 <= k < w0.len() ==> w0[k].slice.0 <= (#[trigger] __self.words@[k]).slice.0 && __self.words@[k].slice.1 <= w0[k].slice.1,
+                forall|k: int| __i0 <= k < w0.len() ==> (#[trigger] __self.words@[k]) == w0[k],
+                pipeline ==> forall|k: int, t: int| 0 <= k < __i0 && w0[k].slice.0 <= t < w0[k].slice.1 && !((#[trigger] __self.words@[k]).slice.0 <= t < __self.words@[k].slice.1) ==> !sp_alnum(#[trigger] chars0[t]),
+                pipeline ==> forall|k: int| 0 <= k < __i0 && (#[trigger] __self.words@[k]).slice.0 < __self.words@[k].slice.1 ==> sp_alnum(chars0[__self.words@[k].slice.0 as int]) && sp_alnum(chars0[__self.words@[k].slice.1 - 1]),
+                forall|k: int| 0 <= k < __i0 ==> (#[trigger] __self.words@[k]).fin == (w0[k].fin || __self.words@[k].slice.1 < w0[k].slice.1),
         {
             let word = &mut __self.words[__i0];
             word.strip(&__self.chars, pattern, lang);
+            proof {
+                if pipeline {
+                    let k = __i0 as int;
+                    let nw = __self.words@[k];
+                    assert forall|t: int| w0[k].slice.0 <= t < w0[k].slice.1 && !(nw.slice.0 <= t < nw.slice.1) implies !sp_alnum(#[trigger] chars0[t]) by { lemma_pm_strip(pattern, lang, chars0[t]); }
+                    if nw.slice.0 < nw.slice.1 { lemma_pm_strip(pattern, lang, chars0[nw.slice.0 as int]); lemma_pm_strip(pattern, lang, chars0[nw.slice.1 - 1]); }
+                }
+            }
         }
         let __clo0 = |w: &WordShape| -> (ret: bool)
             requires w.slice.0 <= w.slice.1,
@@ -635,6 +695,12 @@ impl TextOwn {
                 assert(__clo0.ensures((&stripped[i],), keep(stripped[i])));
             }
         }
+        proof {
+            let keep = choose|keep: spec_fn(WordShape) -> bool| (forall|i: int| 0 <= i < stripped.len() ==> __clo0.ensures((&#[trigger] stripped[i],), keep(stripped[i]))) && __self.words@ == stripped.filter(keep);
+            assert forall|i: int| 0 <= i < stripped.len() implies keep(#[trigger] stripped[i]) == (stripped[i].slice.0 < stripped[i].slice.1) by { assert(__clo0.ensures((&stripped[i],), keep(stripped[i]))); }
+            lemma_strip_fin(w0, stripped, __self.words@, keep, n);
+            if pipeline { lemma_strip_chars(w0, stripped, __self.words@, keep, chars0, n); }
+        }
         let ghost before = __self.words@;
         let __end1 = __self.words.len();
         for offset in 0..__end1
@@ -644,11 +710,13 @@ impl TextOwn {
             let word = &mut __self.words[offset];
             word.offset = offset;
         }
+        proof { lemma_same_slices(__self.words@, before, chars0, n); }
         __self
     }
     pub fn set_stem(self, lang: &Lang) -> (ret: Self)
         requires self.struct_ok(),
         ensures ret.struct_ok(), ws_stems(ret.words@), ret.source@ == self.source@, ret.chars@ == self.chars@, ret.classes@ == self.classes@,
+            self.chars_ok() ==> ret.chars_ok(), same_slices(ret.words@, self.words@),
     {
         let mut __self = self;
         let __end0 = __self.words.len();
@@ -659,12 +727,14 @@ impl TextOwn {
             let word = &mut __self.words[__i0];
             word.set_stem(&__self.chars, lang);
         }
+        proof { lemma_same_slices(__self.words@, self.words@, self.chars@, self.chars@.len() as int); }
         __self
     }
     pub fn set_pos(self, lang: &Lang) -> (ret: Self)
         requires self.struct_ok(),
         ensures ret.struct_ok(), ret.source@ == self.source@, ret.chars@ == self.chars@, ret.classes@ == self.classes@,
             forall|k: int| 0 <= k < self.words@.len() ==> (#[trigger] ret.words@[k]).stem == self.words@[k].stem,
+            self.chars_ok() ==> ret.chars_ok(), same_slices(ret.words@, self.words@),
     {
         let mut __self = self;
         let __end0 = __self.words.len();
@@ -675,6 +745,7 @@ impl TextOwn {
             let word = &mut __self.words[__i0];
             word.set_pos(&__self.chars, lang);
         }
+        proof { lemma_same_slices(__self.words@, self.words@, self.chars@, self.chars@.len() as int); }
         __self
     }
     pub fn set_char_classes(self, lang: &Lang) -> (ret: Self)
@@ -702,17 +773,25 @@ impl TextOwn {
     }
     pub fn lower(self) -> (ret: Self)
         ensures ret.chars@.len() == self.chars@.len(), ret.source@ == self.source@, ret.classes@ == self.classes@, ret.words@ == self.words@,
+            same_class(ret.chars@, self.chars@),
+            self.struct_ok() && self.chars_ok() ==> ret.chars_ok(),
+            // C15: no upper-case character is left
+            forall|t: int| 0 <= t < ret.chars@.len() ==> !sp_upper(#[trigger] ret.chars@[t]), // [C15]
     {
+        broadcast use chx::ax_lower_class;
         let mut __self = self;
         if __self.chars.iter().any(|ch| ch.is_uppercase()) {
             let __end0 = __self.chars.len();
             for __i0 in 0..__end0
                 invariant __end0 == __self.chars@.len(), __self.chars@.len() == self.chars@.len(), __self.source@ == self.source@, __self.classes@ == self.classes@, __self.words@ == self.words@,
+                    forall|t: int| 0 <= t < __i0 ==> #[trigger] __self.chars@[t] == sp_lower(self.chars@[t]),
+                    forall|t: int| __i0 <= t < __self.chars@.len() ==> #[trigger] __self.chars@[t] == self.chars@[t],
             {
                 let ch = &mut __self.chars[__i0];
                 *ch = char_to_lower(*ch, *ch);
             }
         }
+        proof { if self.struct_ok() { lemma_same_class(self.words@, __self.chars@, self.chars@); } }
         __self
     }
 }
@@ -728,15 +807,18 @@ fn set_char_classes__c0(ch: char, lang: &Lang) -> (ret: Option<CharClass>)
 // @item rust/core/src/tokenization/mod.rs :: fn tokenize_query
 pub fn tokenize_query(source: &str, lang: &mut Lang) -> (ret: TextOwn)
     requires old(lang).wf(),
-    // C15 (structure): equal-length arrays; words consecutively numbered, non-empty, ordered, in bounds; 1 <= stem <= len
-    ensures ret.wf(),
+    // C15: equal-length arrays; words consecutively numbered, non-empty, ordered, in bounds, 1 <= stem <= len; no separator inside a
+    // word, alphanumeric edges, every alphanumeric character in a word; a query word is unfinished exactly when it ends the text
+    ensures ret.wf(), // [C15 C01 C03]
+        ws_fin_query(ret.words@, ret.chars@.len() as int), // [C15 C03]
 {
     TextOwn::from_str(source).normalize(lang).fin(false).split(&[CharClass::Whitespace, CharClass::Control, CharClass::Punctuation], lang).strip(&[CharClass::NotAlphaNum], lang).lower().set_pos(lang).set_char_classes(lang).set_stem(lang)
 }
 // @item rust/core/src/tokenization/mod.rs :: fn tokenize_record
 pub fn tokenize_record(source: &str, lang: &mut Lang) -> (ret: TextOwn)
     requires old(lang).wf(),
-    ensures ret.wf(),
+    ensures ret.wf(), // [C15 C01 C03]
+        ws_fin_record(ret.words@), // [C15]
 {
     TextOwn::from_str(source).normalize(lang).split(&[CharClass::Whitespace, CharClass::Control, CharClass::Punctuation], lang).strip(&[CharClass::NotAlphaNum], lang).lower().set_pos(lang).set_char_classes(lang).set_stem(lang)
 }
